@@ -55,6 +55,7 @@ type vfTreeRun struct {
 	reuseAfterOpen bool
 	sawReopen      bool
 	grew           bool
+	filledExactly  int // fill-to plans that stopped exactly at the requested page count
 	fileGrew       int // persistent: bulk inserts after which the file is larger than its initial 1 MiB
 	squeezed       int
 	grewOnAlloc    int  // Sets that allocated a page right after the buffer was trimmed (reallocation during the Set)
@@ -448,6 +449,19 @@ func (r *vfTreeRun) apply(op *vfTreeOp) (err error) {
 			r.fileGrew++
 		}
 		return r.checkFull("after bulk Set")
+	case "fillto":
+		// sequential Sets until the tree has op.N pages (it may overshoot by one at a root split)
+		k := op.K
+		for i := 0; i < 4000000 && int(t.nextPage-1) < op.N; i++ {
+			t.Set(k, op.V)
+			r.model[k] = op.V
+			r.everUsed[k] = struct{}{}
+			k++
+		}
+		if int(t.nextPage-1) == op.N {
+			r.filledExactly++
+		}
+		return r.checkFull("after fill-to-page-count")
 	case "reopen":
 		if !r.c.Persistent {
 			return nil
@@ -685,6 +699,9 @@ func vfTreeEvidence(ev *vfEvidence, r *vfTreeRun, c *vfTreeCase) {
 	if r.fileGrew >= 2 {
 		cl = append(cl, "file-outgrown-before-and-after-a-reopen")
 	}
+	if r.filledExactly > 0 {
+		cl = append(cl, "closed-with-(nearly)-every-page-slot-of-the-initial-file-in-use")
+	}
 	if r.reopenWithFree > 0 {
 		cl = append(cl, "reopen-with>=2-free-pages")
 	}
@@ -725,6 +742,13 @@ func vfTreeProperty(ev *vfEvidence, persistent bool) func(t *rapid.T) {
 			n2 := 2*per + rapid.IntRange(500, 3000).Draw(t, "g2")
 			plan = []vfTreeOp{{Kind: "bulk", K: 1000, C: 1, N: n1, V: 5}, {Kind: "reopen"},
 				{Kind: "bulk", K: uint64(1000 + n1), C: 1, N: n2, V: 6}, {Kind: "reopen"}, {Kind: "bulk", K: 500000000, C: 3, N: 40, V: 7}}
+			planAt = rapid.IntRange(0, nops).Draw(t, "planat")
+		}
+		if persistent && plan == nil && rapid.IntRange(0, 99).Draw(t, "fillboundary") >= 94 {
+			// close the file when (almost) every whole page slot of the initial 1 MiB mapping is in use
+			slots := (minSize - 8) / (16 * (c.MaxKeys + 1)) // whole page slots in the mapping, slot 0 included
+			target := slots - 1 + rapid.IntRange(-2, 1).Draw(t, "filldelta")
+			plan = []vfTreeOp{{Kind: "fillto", K: 7000000, N: target, V: 9}, {Kind: "reopen"}, {Kind: "bulk", K: 900000000, C: 5, N: 30, V: 8}, {Kind: "reopen"}}
 			planAt = rapid.IntRange(0, nops).Draw(t, "planat")
 		}
 		r, err := vfRunTreeCase(c, func(r *vfTreeRun) *vfTreeOp {
